@@ -363,6 +363,13 @@ Lemma P_example_erased :
      C19_TOp C19_Get (C19_RData 5); C19_TOp C19_Get C19_RInvalid].
 Proof. vm_compute. reflexivity. Qed.
 
+(* a move (construction or assignment) hands the WHOLE state - buffer and request - to the target: the target behaves as the
+   source would have (this is what the driver's M / A / S steps rely on: "ready() on the target" is a Ready step on the same state) *)
+Lemma P_future_move_state : forall (D : Type) (cfg : c19_cfg) (k : c19_bkind) (v : D) (f : c19_fut D),
+  snd (c19_fstep cfg k v C19_Move f) = f /\ snd (c19_fstep cfg k v C19_MoveAssign f) = f /\
+  forall o, c19_fstep cfg k v o (snd (c19_fstep cfg k v C19_Move f)) = c19_fstep cfg k v o f.
+Proof. intros. repeat split. Qed.
+
 (* non-vacuity: a history in which every kind of event occurs, with its trace *)
 Lemma P_example_future :
   c19_ftrace c19_cfg_fixed C19_BValue 42 [C19_EvOp C19_Valid; C19_EvOp C19_Ready; C19_EvComplete; C19_EvOp C19_Ready;
